@@ -32,6 +32,7 @@ type H struct {
 	Seq    bool   `json:"seq,omitempty"`
 	Filter string `json:"filter,omitempty"` // "", even, none
 	Panic  string `json:"panic,omitempty"`  // "", always, odd
+	Cancels bool  `json:"cancels,omitempty"` // synchronous only: cancels the publish context when it runs (async handlers dispatched before it may or may not run)
 }
 
 type Pub struct {
@@ -85,9 +86,15 @@ func workload(c *Case, obs eventbus.Observability, ctxCheck func(ctx context.Con
 	bus := eventbus.New(opts...)
 
 	var nestedDone atomic.Bool
+	var cancels sync.Map // event id -> context.CancelFunc
 	body := func(hi int, ctx context.Context, id int) {
 		h := c.Handlers[hi]
 		tr.entered.Add(1)
+		if h.Cancels && !h.Async {
+			if f, ok := cancels.Load(id); ok {
+				f.(context.CancelFunc)()
+			}
+		}
 		if h.Async {
 			tr.enteredAsync.Add(1)
 		}
@@ -152,7 +159,9 @@ func workload(c *Case, obs eventbus.Observability, ctxCheck func(ctx context.Con
 		if p.Cancelled {
 			ctx = cctx
 		} else if p.UseCtx {
-			ctx = context.WithValue(context.Background(), tokKey{"user"}, id)
+			cctx2, cancel2 := context.WithCancel(context.WithValue(context.Background(), tokKey{"user"}, id))
+			cancels.Store(id, cancel2)
+			ctx = cctx2
 		}
 		if p.Persist == "bad" {
 			if ctx == nil {
@@ -335,6 +344,13 @@ func classify(c *Case, tr *truth, o *vkit.Outcome) {
 	for _, p := range c.Pubs {
 		if p.Cancelled {
 			skipped = true
+		}
+	}
+	for _, h := range c.Handlers {
+		if h.Cancels && !h.Async {
+			skipped = true
+			o.Class("context_cancelled_by_a_handler_during_dispatch")
+			break
 		}
 	}
 	if len(c.Handlers) >= 2 && (tr.panics.Load() > 0 || skipped || tr.appendFails > 0) {
